@@ -186,7 +186,7 @@ func main() {
 	hosts := append(append([]string{}, reserved...), "T.ME", "t.me.", "t.me.evil.com", "evilt.me", "localhost", "")
 	ports := []string{"", ":443", ":80", ":"}
 	segA := []string{"", "BotFather", "joinchat", "AbC_123", "abc_123", "BOTFATHER", "a-b", "%41bc", "юзер", "a b", "..", "{username}"}
-	tails := []string{"", "?start=1", "#f", "?a=b#c"}
+	tails := []string{"", "?start=1", "#f", "?a=b#c", "?start=a;b", "?x=%zz"}
 	maxSeg := 2
 	if run.Thorough() {
 		maxSeg = 3
